@@ -185,7 +185,9 @@ PROPS = {
     },
     'C09': {
         'props_file': 'props/C09.v',
-        'domains': [{'name': 'loc-forest', 'quick': 400, 'thorough': 20000, 'thorough_shards': 10}],
+        'domains': [{'name': 'loc-forest', 'quick': 400, 'thorough': 20000, 'thorough_shards': 10},
+                    {'name': 'loc-cache', 'quick': 60, 'thorough': 1500, 'thorough_shards': 5},
+                    {'name': 'cron-sys', 'ok_is_spec': True, 'quick': 48, 'thorough': 600, 'thorough_shards': 5}],
         'spec_ops': ['search', 'event', 'getfact', 'getrule'],
         'corr': 'corr.loc (CorrLoc.check_loc) on the forest profile: 3-4 locations of mixed state kinds whose parent lists change during the history (self loops, indirect loops, missing parents), every op replayed through Location.do_ancestors',
         'rule': 'loc-forest: histories of 20-45 ops spread over 3-4 locations (SimpleLocationProvider), 14% SetParents with 0-2 random parents (loops and unknown names included), inherited and local searches, events, '
